@@ -26,7 +26,8 @@ def recover(snapdir: Path, committed, allowed):
         try:
             json.loads(p.read_text())
         except Exception as e:  # noqa: BLE001
-            probs.append(f"metadata file {p.relative_to(snapdir)} is not a complete document ({type(e).__name__}, {p.stat().st_size} bytes)")
+            size = p.stat().st_size if p.exists() else "missing"
+            probs.append(f"metadata file {p.relative_to(snapdir)} is not a complete document ({type(e).__name__}, {size} bytes)")
     if probs:
         return probs
     try:
